@@ -136,7 +136,6 @@ def errName : HandlesDisk.Err → String
   | .size => "VerifyFileSizeError"
   | .readNoent => "ReadError"
   | .readOther => "ReadError"
-  | .osError => "OSError"
   | .internal => "internal"
 
 def kindName : Missing.ErrKind → String | .read => "ReadError" | .size => "VerifyFileSizeError"
